@@ -228,9 +228,14 @@ def run(cfg, w):
             for index in (True, False):
                 for d2c in [None] + ([px[-1], NAMES[px[0]]] if len(px) > 1 else []):
                     df = a.to_df(index=index, dim_to_columns=d2c)
+                    # the same frame with its dimensions headed by letter instead of by name
+                    n2l = {NAMES[l]: l for l in sx}
+                    dfl = df.rename_axis(index=lambda n: n2l.get(n, n)) if index else df.rename(columns=n2l)
                     for qx in itertools.permutations(sx):
                         back = FlodymArray.from_df(dims=make_dimset(qx, lens, dims), df=df)
                         _cmp(w, f"{''.join(px)}->df(index={int(index)},cols={d2c})->{''.join(qx)}", ref, back, list(qx))
+                        back = FlodymArray.from_df(dims=make_dimset(qx, lens, dims), df=dfl)
+                        _cmp(w, f"{''.join(px)}->df(index={int(index)},cols={d2c},letters)->{''.join(qx)}", ref, back, list(qx))
         return
     if h == "stack":
         sx = cfg["sx"]
